@@ -41,7 +41,7 @@ def Profile(**kw):
   return p
 
 
-CORE = Profile()
+CORE = Profile(p_named_shuffle=0.5)
 AGG = Profile(
     kinds=dict(plain=3, distinct=4, func=1, inline=1, aggfunc=2),
     extras=dict(cmp=2, assign=2, inc=1, alt=1, neg=3, aggexpr=4, filt_inc=1),
@@ -694,6 +694,10 @@ class Gen:
                  f != 'logica_value']
         r.shuffle(named)
         rule['named_order'] = named
+        if len(named) > 1 and rules and named != [
+            h['f'] for h in rules[0]['head']
+            if not IsPositional(h['f']) and h['f'] != 'logica_value']:
+          self.features.add('named_args_reordered_between_rules')
       rules.append(rule)
     if distinct:
       self.features.add('distinct')
